@@ -901,7 +901,8 @@ func impliedConds(cond ssa.Value, outcome bool, depth int) []ImpliedCond {
 	if len(nonConst) != 1 {
 		return []ImpliedCond{{c, outcome}}
 	}
-	out := []ImpliedCond{{c, outcome}}
+	// the φ itself is explained by its operands on this outcome and is not listed
+	var out []ImpliedCond
 	// the short-circuit tests that were skipped over: `a && b` as a value is φ(false from a's block, b); the
 	// φ being true means control did not come from a's block directly, so a went the other way
 	for _, pb := range constPreds {
